@@ -404,11 +404,15 @@ impl BlockFilterRpc for BlockFilterRpcImpl {
         scripts: Vec<ScriptStatus>,
         command: Option<SetScriptsCommand>,
     ) -> Result<()> {
+        let command: storage::SetScriptsCommand = command.map(Into::into).unwrap_or_default();
+        // Nothing is changed in the storage (the pending matched blocks are kept, too), so the
+        // matched blocks in the memory have to be kept.
+        if scripts.is_empty() && !matches!(command, storage::SetScriptsCommand::All) {
+            return Ok(());
+        }
         let mut matched_blocks = self.swc.matched_blocks().write().expect("poisoned");
         let scripts = scripts.into_iter().map(Into::into).collect();
-        self.swc
-            .storage()
-            .update_filter_scripts(scripts, command.map(Into::into).unwrap_or_default());
+        self.swc.storage().update_filter_scripts(scripts, command);
         matched_blocks.clear();
         Ok(())
     }
